@@ -207,8 +207,8 @@ fn opts_for(mode: &str, ctx: &ShardCtx) -> GenOpts {
         "c09" => GenOpts { reopen: true, vacuum: true, flush: true, ..base },
         "c13" => GenOpts { vacuum: true, reopen: true, ..base },
         "c15" => GenOpts { alter: true, reopen: true, ..base },
-        "c11" => GenOpts { vacuum: true, reopen: true, flush: true, big_values: !ctx.excluded("payload.overflow_cell"), ..base },
-        "c07" => GenOpts { sessions: 2, composite_keys: true, bad: true, vacuum: true, ..base },
+        "c11" => GenOpts { vacuum: true, reopen: true, flush: true, alter_col: true, big_values: !ctx.excluded("payload.overflow_cell"), ..base },
+        "c07" => GenOpts { sessions: 2, composite_keys: true, bad: true, vacuum: true, alter_col: true, ..base },
         _ => base,
     }
 }
